@@ -18,7 +18,7 @@ import random
 
 from common import MachineryFailure
 
-CHUNK = 3000
+CHUNK = 1000
 
 
 def _dig(x):
@@ -67,6 +67,8 @@ def _compress(case, ob):
         "cls": case["cls"],
         "reg": case["reg"],
         "unit": case["unit"],
+        "pre": case["pre"],
+        "memo": case["memo"],
         "chain": case["chain"],
         "order": case["order"],
         "fups": [f["f"] for f in ob["fups"]],
@@ -94,6 +96,22 @@ def _short(o):
     return {"vals": vals, "unit": ud}
 
 
+def _run_traces(ck, module, jobs):
+    """jobs = [(label, traces, expect_states)]; the TLC trace runs are independent: run them in threads"""
+    import concurrent.futures as cf
+
+    def one(j):
+        label, traces, expect = j
+        path = ck.write_json(f"traces_{label}.json", traces)
+        res = ck.tlc(module, module, env={"TRACES": path}, workers=1, coverage=False, label=f"trace-validation {label}", timeout=3000)
+        if res.distinct != expect:
+            raise MachineryFailure(f"trace validation {label} consumed {res.distinct} states, expected {expect}")
+        return res
+
+    with cf.ThreadPoolExecutor(max(1, min(len(jobs), NTHREADS))) as ex:
+        return list(ex.map(one, jobs))
+
+
 def _validate(ck, cases, obs, label):
     bad = [(c, o) for c, o in zip(cases, obs) if "_error" in o]
     if bad:
@@ -101,19 +119,21 @@ def _validate(ck, cases, obs, label):
     nb = [(c, o) for c, o in zip(cases, obs) if not o.get("built")]
     if nb:
         raise MachineryFailure("object could not be built: " + str(nb[0])[:600])
+    jobs = []
+    parts = []
     for off in range(0, len(cases), CHUNK):
         pc = cases[off : off + CHUNK]
         po = obs[off : off + CHUNK]
         traces = [_compress(c, o) for c, o in zip(pc, po)]
-        path = ck.write_json(f"traces_{label}_{off}.json", traces)
-        res = ck.tlc("Trace_C11", "Trace_C11", env={"TRACES": path}, workers=1, coverage=False, label=f"trace-validation {label}", timeout=3000)
-        expect = 1 + sum(len(t["chain"]) + len(t["fo"]) + 3 for t in traces)
-        if res.distinct != expect:
-            raise MachineryFailure(f"trace validation consumed {res.distinct} states, expected {expect}")
-        ck.validated(len(traces))
+        jobs.append((f"{label}_{off}", traces, 1 + sum(len(t["chain"]) + len(t["fo"]) + 3 for t in traces)))
+        parts.append((pc, po))
+    results = _run_traces(ck, "Trace_C11", jobs)
+    for (pc, po), res in zip(parts, results):
+        ck.validated(len(pc))
         for r in res.by_tag("T-FAIL"):
             c = pc[r["tid"] - 1]
-            ck.drift_step(r["op"], {"case": {k: c[k] for k in ("cls", "reg", "unit", "chain", "order")}, "model": r["model"], "observed": r["observed"]})
+            _dump({"drift": r["op"], "cls": c["cls"], "reg": c["reg"], "unit": c["unit"], "pre": c["pre"], "memo": c["memo"], "chain": c["chain"], "order": c["order"], "model": r["model"], "observed": r["observed"]})
+            ck.drift_step(r["op"], {"case": {k: c[k] for k in ("cls", "reg", "unit", "pre", "memo", "chain", "order")}, "model": r["model"], "observed": r["observed"]})
         for r in res.by_tag("P-FAIL"):
             c = pc[r["tid"] - 1]
             o = po[r["tid"] - 1]
@@ -125,6 +145,8 @@ def _validate(ck, cases, obs, label):
                 "kind": c["cls"],
                 "reg": c["reg"],
                 "unit": c["unit"],
+                "pre": c["pre"],
+                "memo": c["memo"],
                 "dim": ud[2],
                 "offset": float.fromhex(ud[1]) != 0.0,
                 "extra": r["extra"],
@@ -146,7 +168,54 @@ def _validate(ck, cases, obs, label):
                     import impl_c11
 
                     detail["rows"] = {w: [a, b] for w, a, b in zip(impl_c11.WATCH_SYMS, o["orig"]["rows"], s["rows"]) if a != b}
-            ck.violation(key, detail, case={k: c[k] for k in ("cls", "reg", "unit", "chain", "fups", "order")})
+            _dump({"key": key, "chain": c["chain"], "order": c["order"]})
+            ck.violation(key, detail, case={k: c[k] for k in ("cls", "reg", "unit", "pre", "memo", "chain", "fups", "order")})
+
+
+def _validate_multi(ck, cases, obs, label):
+    bad = [(c, o) for c, o in zip(cases, obs) if "_error" in o]
+    if bad:
+        raise MachineryFailure("replay error: " + str(bad[0])[:1500])
+    jobs = []
+    parts = []
+    MCH = 6000
+    for off in range(0, len(cases), MCH):
+        pc = cases[off : off + MCH]
+        po = obs[off : off + MCH]
+        jobs.append((f"{label}_{off}", po, 1 + sum(len(t["ev"]) + 1 for t in po)))
+        parts.append((pc, po))
+    results = _run_traces(ck, "Trace_C11_multi", jobs)
+    for (pc, po), res in zip(parts, results):
+        ck.validated(len(pc))
+        for r in res.by_tag("T-FAIL"):
+            ck.drift_step(r["op"], {"history": _mshort(pc[r["tid"] - 1]["h"][: r["l"]]), "registry_of": r["observed"]})
+        for r in res.by_tag("P-FAIL"):
+            c = pc[r["tid"] - 1]
+            su = c["h"][0]
+            key = {"clause": r["clause"], "op": r["op"], "how": r["how"], "victim": r["victim"], "sym": r["sym"], "objkind": r["kind"], "kind": su["cls"], "pair": su["k1"] + "+" + su["k2"]}
+            _dump({"key": key, "h": _mshort(c["h"][: r["l"]])})
+            ck.violation(key, {"history": _mshort(c["h"][: r["l"]]), "object": r["obj"], "observed": r["observed"], "expected": r["expected"]}, case={"multi": True, "h": c["h"]})
+
+
+def _mshort(h):
+    out = []
+    for e in h:
+        if e["op"] == "setup":
+            out.append(f"setup {e['cls']} 1={e['k1']}:{e['u1']} 2={e['k2']}:{e['u2']}")
+        elif e["op"] == "restore":
+            out.append(f"{e['how']}({e['x']})")
+        else:
+            out.append(f"edit({e['t']},{e['sym']})")
+    return out
+
+
+def _dump(rec):
+    import os
+
+    p = os.environ.get("C11_DUMP")
+    if p:
+        with open(p, "a") as g:
+            g.write(json.dumps(rec) + "\n")
 
 
 def _nontrivial(c):
@@ -154,10 +223,16 @@ def _nontrivial(c):
     return bool(c["fups"]) and any(not p.startswith(("copy_copy", "dot_copy")) for p in c["chain"])
 
 
+def _mnontrivial(h):
+    """a restore after which something was edited or restored again"""
+    ops = [e["op"] for e in h[1:]]
+    return "restore" in ops[:-1]
+
+
 def _cases_from(res, pred=None):
     out = []
     for r in res.by_tag("CASE"):
-        c = {"cls": r["cls"], "reg": r["reg"], "unit": r["unit"], "chain": list(r["chain"]), "fups": list(r["fups"]), "order": r["order"]}
+        c = {"cls": r["cls"], "reg": r["reg"], "unit": r["unit"], "pre": r["pre"], "memo": r["memo"], "chain": list(r["chain"]), "fups": list(r["fups"]), "order": r["order"]}
         if not c["fups"]:
             # the transcription says the chain does not complete: replay it with the whole battery anyway
             c["fups"] = None
@@ -166,40 +241,74 @@ def _cases_from(res, pred=None):
     return out
 
 
+NTHREADS = 6
+
+
 def run(ck):
+    import concurrent.futures as cf
+
     ck.level = "model_checking"
     ck.assumptions += [
         "objects: unyt_quantity (90.0), unyt_array ([0.5, 2.0, 90.0]) and Unit over 21 unit names; registries: the default registry, and custom registries built per case with added (foo), prefixable (pfoo), offset (ofoo), angle (afoo), logarithmic (lfoo) symbols, a modified default symbol (mile), their own 'code' unit system, and (customcgs) unit_system='cgs'",
+        "pre-persist history chosen by TLC: registry id / code unit system computed after (idlast) or before (idfirst) the first use of prefixed symbols; unit built from the spelling str(unit) (string memo warm) or from another spelling (cold)",
+        "several objects: two originals in two registries with the same user symbols (stock / re-valued mile / added foo), restores by pickle, reload of the same bytes, deepcopy, json, and registry edits of any object in between, every order up to 3 (quick) / 4 (thorough) steps",
         "every follow-up pair starts from empty process-wide lru memos; the baseline is the follow-up on the pristine original before anything was persisted",
         "floats are projected to hex strings; a restored-side number within 1e-12 relative of the original-side number is reported as equal (snap)",
-        "pickle protocols 0/1 are refused by sympy itself and HDF5 needs h5py (absent): not executed; savetxt/loadtxt only for objects of the default registry (loadtxt has no registry argument); to_string/from_string refusals are not demanded; hash of the unit is observed, not demanded",
+        "pickle protocols 0/1 are refused by sympy itself and HDF5 needs h5py (absent): not executed; savetxt/loadtxt only for objects of the default registry (loadtxt has no registry argument); to_string/from_string refusals are not demanded",
     ]
     import impl_c11  # noqa: F401  (constants only; unyt is imported in the workers)
 
-    allf = None
     if ck.replay:
         blob = json.load(open(ck.replay))
-        cases = [blob["case"]]
-        obs = ck.pmap("impl_c11", "observe", cases, nproc=1)
-        _validate(ck, cases, obs, "replay")
+        case = blob["case"]
+        if case.get("multi"):
+            cases = [{"h": case["h"]}]
+            obs = ck.pmap("impl_c11", "observe_multi", cases, nproc=1)
+            _validate_multi(ck, cases, obs, "replay")
+        else:
+            case.setdefault("pre", "idlast")
+            case.setdefault("memo", "warm")
+            cases = [case]
+            obs = ck.pmap("impl_c11", "observe", cases, nproc=1)
+            _validate(ck, cases, obs, "replay")
         return
 
-    plan = ck.q(
-        [("MC_C11_quick1", None, None), ("MC_C11_quick2", 2, None)],
-        [("MC_C11_full1", None, None), ("MC_C11_full2", 2, None)],
+    # ---- 1. TLC generates the histories (independent instances, run side by side) ----
+    n_sim = ck.q(60, 1500)
+    single = ck.q(
+        [("MC_C11_quick1", None), ("MC_C11_quick2", 2), ("MC_C11_pre", None)],
+        [("MC_C11_full1", None), ("MC_C11_full2", 2), ("MC_C11_prefull", None)],
     )
+    multi = ck.q(["MC_C11_multi_quick"], ["MC_C11_multi_full3", "MC_C11_multi_full4"])
+
+    def mc(job):
+        kind, cfg = job
+        if kind == "single":
+            return ck.tlc("MC_C11", cfg, workers=1, label=f"{cfg}: histories build(pre);persist*;follow battery, one case per terminal state", required_actions=["Build", "Persist", "Follow"], timeout=3000)
+        if kind == "sim":
+            return ck.tlc("MC_C11", "MC_C11_sim", workers=1, simulate=n_sim, depth=60, label="simulation: chains up to 4 paths, every pre-history", timeout=3000)
+        if kind == "msim":
+            return ck.tlc("MC_C11_multi", "MC_C11_multi_sim", workers=1, simulate=ck.q(40, 1500), depth=9, label="simulation: several objects, 7 steps", timeout=3000)
+        return ck.tlc("MC_C11_multi", cfg, workers=1, label=f"{cfg}: several objects, every history setup;(restore|edit)^n", required_actions=["Setup", "Restore", "Edit"], timeout=3000)
+
+    jobs = [("single", cfg) for cfg, _ in single] + [("sim", None)] + [("multi", cfg) for cfg in multi] + [("msim", None)]
+    with cf.ThreadPoolExecutor(NTHREADS) as ex:
+        results = list(ex.map(mc, jobs))
+    rs = dict(zip([j[1] or j[0] for j in jobs], results))
+
     seen = set()
     nontrivial = 0
     model_classes = set()
     ck.cov["bound"] = {}
-    for cfg, only_len, _ in plan:
-        res = ck.tlc("MC_C11", cfg, workers=1, label=f"{cfg}: histories build;persist*;follow battery, one case per terminal state", required_actions=["Build", "Persist", "Follow"], timeout=3000)
-        rows = _cases_from(res, (lambda c: len(c["chain"]) == only_len) if only_len else None)
+    allf = None
+    cases = []
+    for cfg, only_len in single:
+        rows = _cases_from(rs[cfg], (lambda c: len(c["chain"]) == only_len) if only_len else None)
         if len(rows) < 50:
             raise MachineryFailure("too few cases exported by " + cfg)
         if allf is None:
             allf = max((c["fups"] for c, _ in rows if c["fups"]), key=len)
-        cases = []
+        n = 0
         for c, r in rows:
             if c["fups"] is None:
                 c["fups"] = list(allf)
@@ -208,41 +317,70 @@ def run(ck):
                 continue
             seen.add(sig)
             cases.append(c)
+            n += 1
             for i, m in enumerate(r["model"]):
                 if m:
-                    model_classes.add((c["fups"][i], c["unit"], "+".join(sorted({p.rstrip("0123456789") for p in c["chain"]}))))
+                    model_classes.add((c["fups"][i], c["unit"], c["pre"], "+".join(sorted({p.rstrip("0123456789") for p in c["chain"]}))))
             if r["restorefails"]:
-                model_classes.add(("restore", c["unit"], c["chain"][-1].rstrip("0123456789")))
-        ck.cov["bound"][cfg] = {"cases": len(cases)}
-        ck.sample(cases[len(cases) // 3])
-        nontrivial += sum(1 for c in cases if _nontrivial(c))
-        obs = ck.pmap("impl_c11", "observe", cases, chunk_timeout=3000)
-        _validate(ck, cases, obs, cfg)
-
+                model_classes.add(("restore", c["unit"], c["pre"], c["chain"][-1].rstrip("0123456789")))
+        ck.cov["bound"][cfg] = {"cases": n}
+    ck.sample(cases[len(cases) // 3])
     # beyond the bound: longer chains from TLC's simulator
-    n_sim = ck.q(40, 1500)
-    res = ck.tlc("MC_C11", "MC_C11_sim", workers=1, simulate=n_sim, depth=60, label="simulation: chains up to 4 paths", timeout=3000)
-    rows = _cases_from(res, lambda c: len(c["chain"]) >= 3)
     rnd = random.Random(ck.seed)
-    cases = []
-    for c, r in rows:
+    sims = []
+    for c, r in _cases_from(rs["sim"], lambda c: len(c["chain"]) >= 3):
         if c["fups"] is None:
             c["fups"] = list(allf)
         sig = json.dumps(c, sort_keys=True)
         if sig not in seen:
             seen.add(sig)
-            cases.append(c)
-    cases.sort(key=lambda c: json.dumps(c, sort_keys=True))
-    rnd.shuffle(cases)
-    cases = cases[: ck.q(60, 2500)]
-    if cases:
-        ck.sample(cases[0])
-        nontrivial += sum(1 for c in cases if _nontrivial(c))
-        obs = ck.pmap("impl_c11", "observe", cases, chunk_timeout=3000)
-        _validate(ck, cases, obs, "sim")
-    ck.cov["simulated_histories"] = len(cases)
+            sims.append(c)
+    sims.sort(key=lambda c: json.dumps(c, sort_keys=True))
+    rnd.shuffle(sims)
+    sims = sims[: ck.q(60, 2500)]
+    if sims:
+        ck.sample(sims[0])
+    ck.cov["simulated_histories"] = len(sims)
+    cases += sims
+    nontrivial += sum(1 for c in cases if _nontrivial(c))
+
+    mcases = []
+    mseen = set()
+    for cfg in multi:
+        n = 0
+        for r in rs[cfg].by_tag("MCASE"):
+            sig = json.dumps(r["h"], sort_keys=True)
+            if sig not in mseen:
+                mseen.add(sig)
+                mcases.append({"h": r["h"]})
+                n += 1
+        if n < 50:
+            raise MachineryFailure("too few histories exported by " + cfg)
+        ck.cov["bound"][cfg] = {"histories": n}
+    msim = []
+    for r in rs["msim"].by_tag("MCASE"):
+        sig = json.dumps(r["h"], sort_keys=True)
+        if sig not in mseen:
+            mseen.add(sig)
+            msim.append({"h": r["h"]})
+    msim.sort(key=lambda c: json.dumps(c, sort_keys=True))
+    rnd.shuffle(msim)
+    msim = msim[: ck.q(150, 4000)]
+    ck.cov["simulated_multi_histories"] = len(msim)
+    mcases += msim
+    ck.sample({"several_objects": _mshort(mcases[len(mcases) // 2]["h"])})
+    nontrivial += sum(1 for c in mcases if _mnontrivial(c["h"]))
+
+    # ---- 2. replay in the real library ----
+    obs = ck.pmap("impl_c11", "observe", cases, chunk_timeout=3000)
+    mobs = ck.pmap("impl_c11", "observe_multi", mcases, chunk_timeout=3000)
+
+    # ---- 3. TLC validates the observations (T and P) ----
+    _validate(ck, cases, obs, "single")
+    _validate_multi(ck, mcases, mobs, "multi")
+
     ck.cov["model_level_diverging_classes"] = len(model_classes)
     ck.cov["exhaustive"] = True
     ck.cov["evaluations"] = ck.cov["traces_validated_against_impl"]
     ck.cov["distinct_nontrivial"] = nontrivial
-    ck.cov["rule"] = "histories exported by TLC (object x chain of persistence paths x order, whole follow-up battery) replayed on real objects; non-trivial = the chain contains a path that rebuilds the object (not copy.copy/.copy()) and the battery was applied"
+    ck.cov["rule"] = "histories exported by TLC replayed on real objects: (a) object x pre-history x chain of persistence paths x order with the whole follow-up battery - non-trivial = the chain contains a path that rebuilds the object (not copy.copy/.copy()) and the battery was applied; (b) two originals, restores and registry edits interleaved - non-trivial = something is restored or edited after a restore"
